@@ -27,6 +27,7 @@ import . "github.com/pbenner/autodiff/logarithmetic"
 
 import . "github.com/pbenner/autodiff"
 import . "github.com/pbenner/threadpool"
+import   "github.com/pbenner/autodiff/verifhook"
 
 /* -------------------------------------------------------------------------- */
 
@@ -89,6 +90,8 @@ func (obj *MixtureStdDataSet) EvaluateLogPdf(edist []VectorPdf, pool ThreadPool)
   g := pool.NewJobGroup()
   // evaluate emission distributions
   if err := pool.AddRangeJob(0, n, g, func(i int, pool ThreadPool, erf func() error) error {
+    verifhook.Yield("vectorEstimator.mixture_data.job")
+    verifhook.Event("vectorEstimator.mixture_data", i, pool.GetThreadId())
     if erf() != nil {
       return nil
     }
@@ -109,6 +112,7 @@ func (obj *MixtureStdDataSet) EvaluateLogPdf(edist []VectorPdf, pool ThreadPool)
   }); err != nil {
     return fmt.Errorf("evaluating emission probabilities failed: %v", err)
   }
+  verifhook.Yield("vectorEstimator.mixture_data.queued")
   if err := pool.Wait(g); err != nil {
     return fmt.Errorf("evaluating emission probabilities failed: %v", err)
   }
